@@ -14,7 +14,7 @@
    The model follows /repo after the repairs dee6410 (block written in one batch),
    2b21c7f (head switch in one batch), 3eba51b (side chain checks the signature),
    599b875 (verifyAllSideChainBlocks stores each fork block once it is verified). *)
-From VF.C11 Require Import Model ProofsA ProofsB ProofsC ProofsD ProofsE ProofsF ProofsH ProofsI ProofsJ.
+From VF.C11 Require Import Model ProofsA ProofsB ProofsC ProofsD ProofsE ProofsF ProofsG ProofsH ProofsI ProofsJ ProofsK.
 Local Open Scope N_scope.
 
 Definition wf (t : tree) (g : block) : Prop :=
@@ -82,14 +82,39 @@ Definition C11_not_wedged_full : Prop :=
       let again := fst (InsertChain t fuel (fresh d h) (blocks_of t batch)) in
       cur (fst (InsertChain t fuel again [f])) = cur (fst (InsertChain t fuel free [f])).
 
-(* PARTIAL: proved for the import of the next block on the head (the steady state
-   of a synchronised node): after any history, b a good block whose parent is the
-   head and whose height is free in the index; killed after any write of b's
-   import, the restart succeeds and offering b again leaves the node with EXACTLY
-   the database and the head of the node that never crashed (so every later
-   import behaves identically; no further block is needed).  For general batches
-   (side chains, reorgs, several blocks) the statement is checked by enumeration
-   of every crash point on the implementation and in the model, not proved. *)
+(* Proved for every batch that EXTENDS THE HEAD LINEARLY (the steady state of a
+   synchronised node and the block-by-block or chunk-by-chunk download of a
+   longer chain): after any history, [chain] = any number of good blocks, the
+   first on the head, each on its predecessor, with no stale index entries above
+   the head.  Killed after ANY database write of the import (block batch, state
+   commit or head switch of any of its blocks), the restart succeeds and offering
+   the batch again leaves the node with EXACTLY the database (hence the same
+   canonical index, lookups, states) and the head of the node that never crashed,
+   so every later import behaves identically and no further block is needed. *)
+Theorem C11_not_wedged_linear_batch :
+  forall t g fuel hist f k hb chain, wf t g ->
+    let s0 := run t fuel (init_st g) hist in
+    budget s0 = None ->
+    info t (d_headB (disk_of s0)) = Some hb ->
+    free_above (disk_of s0) hb -> lin_chain t hb chain -> chain <> [] ->
+    let free := fst (InsertChain t (S f) s0 chain) in
+    let sk := fst (InsertChain t (S f) (with_budget (Some k) s0) chain) in
+    exists d h, recover t (disk_of sk) = Some (d, h) /\
+      let again := fst (InsertChain t (S f) (fresh d h) chain) in
+      disk_of again = disk_of free /\ cur again = cur free /\ budget again = None /\
+      cur free = bid (last chain hb).
+Proof. intros t g fuel hist f k hb chain [A [B [C D]]]. exact (not_wedged_linear_run t g A B C D fuel hist f k hb chain). Qed.
+Print Assumptions C11_not_wedged_linear_batch.
+
+(* The single-block case with the weaker side condition "the block's own height is
+   free" (stale entries higher up are allowed).
+   PARTIAL with respect to C11_not_wedged_full: batches that reach insertSidechain
+   (first block ErrExistCanonical or ErrPrunedAncestor: a competing fork, stored
+   first and adopted by the nested insertChain whose verdicts are taken on another
+   database than at top level) and blocks imported over stale index entries
+   (ErrExistCanonical with i > 0, VerifySeal path) are not covered by a theorem;
+   for them the statement is checked by enumeration of every crash point on the
+   implementation and in the model. *)
 Theorem C11_not_wedged_next_block_partial :
   forall t g fuel hist f k hb b, wf t g ->
     let s0 := run t fuel (init_st g) hist in
@@ -144,6 +169,19 @@ Example C11_nonvacuous_next_block :
   cur (fst (InsertChain ex_tree 6 s0 (blocks_of ex_tree [9]))) = 9.
 Proof. vm_compute. repeat split; reflexivity. Qed.
 Print Assumptions C11_nonvacuous_next_block.
+
+(* the hypotheses of the linear-batch theorem are satisfiable: [9;10] on head 7 *)
+Definition ex_tree2 : tree := ex_tree ++ [mkB 10 9 6 5 [6] 0 0].
+Example C11_nonvacuous_linear_batch :
+  let s0 := run ex_tree2 6 (init_st ex_g) ex_hist in
+  let hb := mkB 7 6 4 4 [] 0 0 in
+  let chain := [mkB 9 7 5 4 [] 0 0; mkB 10 9 6 5 [6] 0 0] in
+  budget s0 = None /\ info ex_tree2 (d_headB (disk_of s0)) = Some hb /\
+  lin_chain ex_tree2 hb chain /\
+  (forallb (fun n => match canon (disk_of s0) n with None => true | _ => false end) [5; 6; 7; 8] = true) /\
+  cur (fst (InsertChain ex_tree2 6 s0 chain)) = 10.
+Proof. vm_compute. repeat split; reflexivity. Qed.
+Print Assumptions C11_nonvacuous_linear_batch.
 
 (* the witnesses of the three repaired defects, now regression examples of the model
    (the same inputs run against the implementation from corpus/C11 on every check) *)
